@@ -59,6 +59,7 @@ Json == MT("application", "json", "")
 Declared(d) == CASE d = "none" -> {} [] d = "json" -> {Json} [] d = "jsonNoSchema" -> {Json}
                  [] d = "text" -> {MT("text", "plain", "")} [] d = "wild" -> {MT("application", "*", "")}
                  [] d = "jsonAndText" -> {Json, MT("text", "plain", "")}
+                 [] d = "any" -> {MT("*", "*", "")}
 
 (* the content of the selected definition: declared content type, then the body against its schema read as a response *)
 BodyAccepts(c) ==
@@ -82,8 +83,16 @@ DefAccepts(c) == HeaderOK(c.hd, c.hv) /\ BodyAccepts(c)
 (* two readings of an empty piece disagree the verdict is open (neither HdrAccepts nor HdrRejects).                     *)
 (* A definition under the name Content-Type (any letter case) is ignored (OAS 3.0.3 Response Object).                    *)
 IsCT(name) == name \in {"Content-Type", "content-type", "CONTENT-TYPE"}
-HdrGood(h) == IsCT(h.name) \/ IF h.present THEN TextMustAccept(h.hs, h.cs, h.explode) ELSE ~h.hreq
-HdrBad(h)  == ~IsCT(h.name) /\ IF h.present THEN TextMustReject(h.hs, h.cs, h.explode) ELSE h.hreq
+(* A header sent on SEVERAL field lines ("cs2": the second line): RFC 9110 5.3 lets a recipient read the lines as one *)
+(* comma-joined list; the statement does not say whether the first line or the joined list is "the header", so the   *)
+(* contract binds only where both readings agree.                                                                    *)
+Joined(h) == h.cs \o <<",">> \o h.cs2
+TxtGood(h) == /\ TextMustAccept(h.hs, h.cs, h.explode)
+              /\ ("cs2" \in DOMAIN h => TextMustAccept(h.hs, Joined(h), h.explode))
+TxtBad(h)  == /\ TextMustReject(h.hs, h.cs, h.explode)
+              /\ ("cs2" \in DOMAIN h => TextMustReject(h.hs, Joined(h), h.explode))
+HdrGood(h) == IsCT(h.name) \/ IF h.present THEN TxtGood(h) ELSE ~h.hreq
+HdrBad(h)  == ~IsCT(h.name) /\ IF h.present THEN TxtBad(h) ELSE h.hreq
 HdrAccepts(c) == (\A i \in DOMAIN c.hdrs : HdrGood(c.hdrs[i])) /\ BodyAccepts(c)
 HdrRejects(c) == (\E i \in DOMAIN c.hdrs : HdrBad(c.hdrs[i])) \/ ~BodyAccepts(c)
 
